@@ -6,6 +6,7 @@ import (
 	"strconv"
 	"sync/atomic"
 
+	"github.com/internetarchive/Zeno/internal/pkg/verifhook"
 	"github.com/internetarchive/Zeno/pkg/models"
 	"github.com/philippgille/gokv/leveldb"
 )
@@ -96,6 +97,7 @@ func SeencheckItem(item *models.Item) error {
 		}
 
 		found, foundType := isSeen(hash)
+		verifhook.At("seencheck.get", items[i].GetURL().String(), URLType, found, foundType)
 
 		if !found {
 			// First time seen: mark and process
